@@ -604,7 +604,7 @@ static void obs (void) {
 				int v = drain_value (shm_key[i], lock_key[i]);
 				if (v == -2) a += (size_t) snprintf (api + a, sizeof api - a, "m%d=%ld/GETVALUE-MISMATCH ", i, sz);
 				else a += (size_t) snprintf (api + a, sizeof api - a, "m%d=%ld/%d ", i, sz, v);
-			} else a += (size_t) snprintf (api + a, sizeof api - a, "m%d=%ld/- ", i, sz);
+			} else a += (size_t) snprintf (api + a, sizeof api - a, "m%d=%ld/1 ", i, sz);   /* no lock object: the next opener makes one of value 1 (presence: internal part) */
 		} else a += (size_t) snprintf (api + a, sizeof api - a, "m%d=- ", i);
 		b += (size_t) snprintf (in + b, sizeof in - b, "m%d.l=%s ", i, lk ? "+" : "-");
 	}
